@@ -17,6 +17,12 @@ def run(chk, replay=None):
     th = chk.tier == 'thorough'
     pool = [l for l, _ in streams.grammar_lines(rng, 80, 0.1) + streams.anyjson_lines(rng, 60) + streams.fixture_lines()]
     logs = make_logs(rng, pool, 400 if th else 90)
+    # long lines (beyond every buffer size a line reader is likely to use, below the 64 KiB limit), several per log
+    def long_line(n, tag):
+        vals = ','.join('"v%s%05d"' % (tag, i) for i in range(max(1, (n - 200) // 11)))
+        return ('{"t":{"$date":"2020-01-01T00:00:00.000+00:00"},"s":"I","c":"COMMAND","id":51803,"ctx":"conn%s","msg":"Slow query","attr":{"ns":"mydb.users","command":{"find":"users","filter":{"f%s":{"$in":[%s]}},"$db":"mydb"}}}' % (tag, tag, vals)).encode()
+    longs = [long_line(n, t) for n, t in ((4200, 'a'), (5000, 'b'), (9000, 'c'), (17000, 'd'), (33000, 'e'), (60000, 'f'), (65000, 'g'))]
+    logs += [[longs[0], pool[0], longs[1], longs[2]], [longs[3], longs[4]], [pool[1], longs[5], pool[2], longs[3], longs[1]], [longs[6], pool[0]], [longs[2], b'', longs[2], b'not json', longs[4]]]
     cfgs = [Cfg(), Cfg(nums=True, nss=True, ips=True), Cfg(eager=['mydb', 'shop'], repl='Q')]
     chk.rule = ("multi-line logs drawn from {grammar command lines, arbitrary-JSON lines of other components, blank, whitespace-only, non-JSON text, scalars/arrays, truncated objects}; "
                 "LF/CRLF, with/without final newline, random split points, permutations; non-trivial = distinct logs with >= 2 lines of which >= 1 is emitted")
